@@ -2,6 +2,7 @@ package node
 
 import (
 	"fmt"
+	"unicode/utf8"
 
 	"github.com/freeconf/yang/meta"
 	"github.com/freeconf/yang/val"
@@ -51,12 +52,22 @@ func (check fieldConstraints) checkRange(v val.Value, t *meta.Type) error {
 	if len(t.Range()) == 0 {
 		return nil
 	}
-	for _, r := range t.Range() {
-		if err := r.CheckValue(v); err == nil {
-			return nil
+	// each item of a leaf-list is checked on its own
+	var err error
+	val.ForEach(v, func(_ int, item val.Value) {
+		if err != nil {
+			return
 		}
-	}
-	return fmt.Errorf("'%s' did not match any of the required ranges", v)
+		// a derived type restricts its base type further so value has to be inside
+		// the range of every level
+		for _, r := range t.Range() {
+			if rerr := r.CheckValue(item); rerr != nil {
+				err = fmt.Errorf("'%s' is outside allowed range %s", item, r)
+				return
+			}
+		}
+	})
+	return err
 }
 
 func (fieldConstraints) patternCheck(s string, patterns []*meta.Pattern) error {
@@ -72,13 +83,12 @@ func (fieldConstraints) patternCheck(s string, patterns []*meta.Pattern) error {
 }
 
 func (fieldConstraints) lenCheck(s string, lengths []*meta.Range) error {
-	if len(lengths) == 0 {
-		return nil
-	}
+	// length is in characters, not bytes and like range, inside the length of every level
+	n := val.Int32(utf8.RuneCountInString(s))
 	for _, length := range lengths {
-		if err := length.CheckValue(val.Int32(len(s))); err == nil {
-			return nil
+		if err := length.CheckValue(n); err != nil {
+			return fmt.Errorf("string length outside allowed lengths %s. %s", length, s)
 		}
 	}
-	return fmt.Errorf("string length outside allowed ranges. %s", s)
+	return nil
 }
